@@ -36,3 +36,25 @@ Theorem C10_return_with_value : forall r v a rest, r_stack r = v :: VRet a :: re
   exists r', do_return r = (r', Ok tt) /\ r_stack r' = v :: rest /\ r_pc r' = a /\ r_vars r' = r_vars r.
 Proof. exact return_with_value. Qed.
 Print Assumptions C10_return_with_value.
+
+(* ---- the scanner never produces an identifier with a '.' (Proofs/LexIdent.v): parameters are private ---- *)
+From BL Require Import Lang.Token Lang.Lex Lang.Parse Mach.Var Proofs.LexIdent.
+
+(* whatever is typed, no identifier token of the scanned line contains a '.' *)
+Theorem C10_scanned_identifiers_have_no_dot : forall src num toks i,
+  lex src = Ok (num, toks) -> In (TIdent i) toks -> ~ In 46 (ident_str i).
+Proof. exact scanned_identifiers_have_no_dot. Qed.
+Print Assumptions C10_scanned_identifiers_have_no_dot.
+
+(* so the mangled name FNX.P under which a parameter is stored is never the name of an identifier of any source line *)
+Theorem C10_mangled_names_are_private : forall src num toks i fn p,
+  lex src = Ok (num, toks) -> In (TIdent i) toks -> ident_str (mangle fn p) <> ident_str i.
+Proof. exact mangled_names_are_private. Qed.
+Print Assumptions C10_mangled_names_are_private.
+
+(* and binding a parameter -- a store to its mangled name -- leaves every variable a program can name as it was *)
+Theorem C10_parameter_binding_is_local : forall src num toks i fn p vs v vs',
+  lex src = Ok (num, toks) -> In (TIdent i) toks ->
+  var_store vs (ident_str (mangle fn p)) v = Ok vs' -> var_fetch vs' (ident_str i) = var_fetch vs (ident_str i).
+Proof. exact parameter_binding_is_local. Qed.
+Print Assumptions C10_parameter_binding_is_local.
